@@ -518,3 +518,221 @@ Proof.
     replace (e <=? seconds (w_block w)) with true by lia. cbn [ensure bind].
     rewrite Hopen. cbn [bind]. eauto.
 Qed.
+
+(* ---------- farms (C11) ---------- *)
+Lemma validate_farm_epochs_spec p cur buffer st en :
+  validate_farm_epochs p cur buffer = Ok (st, en) ->
+  st = match fp_start p with Some e => e | None => cur + 1 end /\
+  (match fp_end p with Some e => en = e | None => en = st + DEFAULT_FARM_DURATION end) /\
+  cur < st /\ st < en /\ st <= cur + buffer.
+Proof.
+  unfold validate_farm_epochs. intros H.
+  apply bind_ok in H. destruct H as [s0 [Hs H]].
+  apply bind_ok in H. destruct H as [[] [H1 H]]. apply ensure_ok in H1.
+  apply bind_ok in H. destruct H as [dflt [Hd H]].
+  apply bind_ok in H. destruct H as [[] [H2 H]]. apply ensure_ok in H2.
+  apply bind_ok in H. destruct H as [[] [H3 H]]. apply ensure_ok in H3.
+  apply bind_ok in H. destruct H as [lim [Hl H]]. unfold cadd in Hl. apply chk_ok in Hl. destruct Hl as [-> _].
+  apply bind_ok in H. destruct H as [[] [H4 H]]. apply ensure_ok in H4. inversion H; subst st en; clear H.
+  assert (Es : s0 = match fp_start p with Some e => e | None => cur + 1 end).
+  { destruct (fp_start p); [inversion Hs; reflexivity|]. destruct (in_range U64_MAX (cur + 1)); inversion Hs; reflexivity. }
+  assert (Ed : dflt = s0 + DEFAULT_FARM_DURATION) by (destruct (in_range U64_MAX (s0 + DEFAULT_FARM_DURATION)); inversion Hd; reflexivity).
+  split; [exact Es|]. split; [destruct (fp_end p); [reflexivity | exact Ed]|]. lia.
+Qed.
+
+Lemma create_farm_spec w sender funds p s' msgs :
+  create_farm w sender funds p = Ok (s', msgs) ->
+  exists ep (expired live : list farm) fee_msgs st en identifier,
+    q_current_epoch w (fm_epoch_manager (fm_cfg (w_fm w))) = Ok ep /\
+    (* the farms of this LP token split into expired ones (swept and refunded) and live ones (below the limit) *)
+    Z.of_nat (List.length live) < fm_max_farms (fm_cfg (w_fm w)) /\
+    (forall f, In f expired -> In f (farms_by_lp (w_fm w) (fp_lp p) (fm_max_farms (fm_cfg (w_fm w))))) /\
+    MIN_FARM_AMOUNT <= amount_of (fp_asset p) /\
+    (if negb (amount_of (fm_create_fee (fm_cfg (w_fm w))) =? 0)
+     then process_farm_creation_fee (fm_cfg (w_fm w)) sender funds (fp_asset p) = Ok fee_msgs else fee_msgs = []) /\
+    assert_farm_asset funds (fm_create_fee (fm_cfg (w_fm w))) (fp_asset p) = Ok tt /\
+    validate_farm_epochs p (ep_id ep) (fm_epoch_buffer (fm_cfg (w_fm w))) = Ok (st, en) /\
+    identifier = match fp_id p with Some id => ("m-" ++ id)%string
+                 | None => ("f-" ++ string_of_Z (fm_farm_counter (w_fm w) + 1))%string end /\
+    sfind f_id identifier (fm_farms (fst (close_farms (w_fm w) expired))) = None /\
+    fm_farms s' = sinsert f_id {| f_id := identifier; f_owner := sender; f_lp := fp_lp p; f_asset := fp_asset p; f_claimed := 0;
+                                  f_rate := amount_of (fp_asset p) / (en - st); f_start := st; f_end := en |}
+                          (fm_farms (fst (close_farms (w_fm w) expired))) /\
+    fm_positions s' = fm_positions (w_fm w) /\ fm_cfg s' = fm_cfg (w_fm w) /\ fm_own s' = fm_own (w_fm w) /\
+    fm_weights s' = fm_weights (w_fm w) /\ fm_last_claimed s' = fm_last_claimed (w_fm w) /\
+    msgs = (fee_msgs ++ snd (close_farms (w_fm w) expired))%list.
+Proof.
+  unfold create_farm. intros H.
+  apply bind_ok in H. destruct H as [[] [_ H]].
+  apply bind_ok in H. destruct H as [ep [Hep H]].
+  apply bind_ok in H. destruct H as [[expired live] [Hpart H]].
+  pose proof (close_farms_tables expired (w_fm w) []) as Hcf. cbv zeta in Hcf. fold (close_farms (w_fm w) expired) in Hcf.
+  destruct Hcf as (A1 & A2 & A3 & A4 & A5 & A6 & A7 & _).
+  destruct (close_farms (w_fm w) expired) as [s1 submsgs] eqn:Ecf. cbn [fst snd] in *.
+  apply bind_ok in H. destruct H as [[] [Hlim H]]. apply ensure_ok in Hlim.
+  apply bind_ok in H. destruct H as [[] [Hmin H]]. apply ensure_ok in Hmin.
+  apply bind_ok in H. destruct H as [fmsgs [Hfee H]].
+  apply bind_ok in H. destruct H as [[] [Hasset H]].
+  apply bind_ok in H. destruct H as [[st en] [Hep2 H]].
+  apply bind_ok in H. destruct H as [[identifier s2] [Hid H]].
+  apply bind_ok in H. destruct H as [[] [_ H]].
+  apply bind_ok in H. destruct H as [[] [Hfr H]]. apply ensure_ok in Hfr.
+  apply bind_ok in H. destruct H as [rate [Hrate H]]. inversion H; subst s' msgs; clear H.
+  pose proof (validate_farm_epochs_spec _ _ _ _ _ Hep2) as (_ & _ & _ & Hlt & _).
+  apply cdiv_ok in Hrate. destruct Hrate as [_ ->]. unfold ssub. replace (Z.max 0 (en - st)) with (en - st) by lia.
+  assert (Hs2 : fm_farms s2 = fm_farms s1 /\ fm_positions s2 = fm_positions s1 /\ fm_cfg s2 = fm_cfg s1 /\ fm_own s2 = fm_own s1 /\
+                fm_weights s2 = fm_weights s1 /\ fm_last_claimed s2 = fm_last_claimed s1 /\
+                identifier = match fp_id p with Some id => ("m-" ++ id)%string
+                             | None => ("f-" ++ string_of_Z (fm_farm_counter (w_fm w) + 1))%string end).
+  { destruct (fp_id p).
+    - inversion Hid; subst. repeat split.
+    - apply bind_ok in Hid. destruct Hid as [c [Hc Hid]]. rewrite A5 in Hc.
+      destruct (in_range U64_MAX (fm_farm_counter (w_fm w) + 1)); [|discriminate]. inversion Hc; subst c.
+      inversion Hid; subst. repeat split. }
+  destruct Hs2 as (S1 & S2 & S3 & S4 & S5 & S6 & S7).
+  exists ep, expired, live, fmsgs, st, en, identifier. rewrite !Ecf. cbn [fst snd].
+  cbn [fm_set_farms fm_with fm_farms fm_positions fm_cfg fm_own fm_weights fm_last_claimed].
+  split; [exact Hep|]. split; [lia|]. split.
+  { (* expired farms come from the fetched list *)
+    clear - Hpart. revert Hpart. generalize (farms_by_lp (w_fm w) (fp_lp p) (fm_max_farms (fm_cfg (w_fm w)))) as l.
+    intros l Hpart f Hin.
+    assert (G : forall l acc r, foldM (fun acc f => let* ex := unwrap_or (is_farm_expired w (fm_cfg (w_fm w)) f) false in
+                     Ok (if ex then ((fst acc ++ [f])%list, snd acc) else (fst acc, (snd acc ++ [f])%list))) l acc = Ok r ->
+                   forall x, In x (fst r) -> In x (fst acc) \/ In x l).
+    { induction l0 as [|y ys IH]; intros acc r Hf x Hx; cbn [foldM] in Hf.
+      - inversion Hf; subst. auto.
+      - apply bind_ok in Hf. destruct Hf as [acc' [Hs Hf]]. apply bind_ok in Hs. destruct Hs as [ex [_ Hs]].
+        destruct (IH _ _ Hf x Hx) as [Hi|Hi]; [|right; right; exact Hi].
+        inversion Hs; subst acc'. destruct ex; cbn [fst] in Hi; [|auto].
+        apply in_app_iff in Hi. destruct Hi as [Hi|[->|[]]]; [auto | right; left; reflexivity]. }
+    destruct (G _ _ _ Hpart f Hin) as [[]|Hi]. exact Hi. }
+  split; [unfold MIN_FARM_AMOUNT in *; lia|]. split.
+  { destruct (negb (amount_of (fm_create_fee (fm_cfg (w_fm w))) =? 0)); [exact Hfee | inversion Hfee; reflexivity]. }
+  split; [exact Hasset|]. split; [exact Hep2|]. split; [exact S7|]. split.
+  { rewrite <- S1. destruct (sfind f_id identifier (fm_farms s2)); [discriminate | reflexivity]. }
+  rewrite S1, S2, S3, S4, S5, S6, A1, A2, A3, A6, A7. repeat split.
+Qed.
+
+Lemma expand_farm_spec w sender funds p s' msgs :
+  expand_farm w sender funds p = Ok (s', msgs) ->
+  msgs = [] /\
+  exists id f ep reward,
+    fp_id p = Some id /\ sfind f_id id (fm_farms (w_fm w)) = Some f /\ f_owner f = sender /\
+    q_current_epoch w (fm_epoch_manager (fm_cfg (w_fm w))) = Ok ep /\ ep_id ep < f_end f /\
+    is_farm_expired w (fm_cfg (w_fm w)) f = Ok false /\
+    one_coin funds = Ok reward /\ reward = fp_asset p /\ denom_of (f_asset f) = denom_of reward /\
+    f_rate f <> 0 /\ amount_of reward mod f_rate f = 0 /\
+    fm_farms s' = sinsert f_id {| f_id := f_id f; f_owner := f_owner f; f_lp := f_lp f;
+                                  f_asset := (denom_of (f_asset f), amount_of (f_asset f) + amount_of reward);
+                                  f_claimed := f_claimed f; f_rate := f_rate f; f_start := f_start f;
+                                  f_end := f_end f + amount_of reward / f_rate f |} (fm_farms (w_fm w)) /\
+    fm_positions s' = fm_positions (w_fm w) /\ fm_cfg s' = fm_cfg (w_fm w) /\ fm_weights s' = fm_weights (w_fm w).
+Proof.
+  unfold expand_farm. intros H.
+  apply bind_ok in H. destruct H as [id [Hid H]]. apply of_option_ok in Hid.
+  apply bind_ok in H. destruct H as [f [Hf H]]. apply of_option_ok in Hf.
+  apply bind_ok in H. destruct H as [[] [Ho H]]. apply ensure_ok in Ho. apply String.eqb_eq in Ho.
+  apply bind_ok in H. destruct H as [ep [Hep H]].
+  apply bind_ok in H. destruct H as [[] [Hend H]]. apply ensure_ok in Hend.
+  apply bind_ok in H. destruct H as [ex [Hex H]].
+  apply bind_ok in H. destruct H as [[] [Hnex H]]. apply ensure_ok in Hnex.
+  apply bind_ok in H. destruct H as [[] [_ H]].
+  apply bind_ok in H. destruct H as [reward [Hrw H]].
+  apply bind_ok in H. destruct H as [[] [Heq H]]. apply ensure_ok in Heq.
+  apply bind_ok in H. destruct H as [[] [Hden H]]. apply ensure_ok in Hden. apply String.eqb_eq in Hden.
+  apply bind_ok in H. destruct H as [[] [Hmod H]].
+  destruct (f_rate f =? 0) eqn:Er; [discriminate|]. apply ensure_ok in Hmod.
+  apply bind_ok in H. destruct H as [a [Ha H]]. unfold cadd in Ha. apply chk_ok in Ha. destruct Ha as [-> _].
+  apply bind_ok in H. destruct H as [extra [Hx H]]. apply cdiv_ok in Hx. destruct Hx as [_ ->].
+  apply bind_ok in H. destruct H as [e64 [Hx64 H]]. apply chk_ok in Hx64. destruct Hx64 as [-> _].
+  apply bind_ok in H. destruct H as [e' [He' H]].
+  destruct (in_range U64_MAX (f_end f + amount_of (fp_asset p) / f_rate f)); [|discriminate]. inversion He'; subst e'.
+  inversion H; subst s' msgs; clear H.
+  apply andb_true_iff in Heq. destruct Heq as [Hd Hamt]. apply String.eqb_eq in Hd.
+  assert (reward = fp_asset p) as -> by (destruct reward, (fp_asset p); unfold denom_of, amount_of in *; cbn in *; f_equal; [exact Hd | lia]).
+  split; [reflexivity|]. exists id, f, ep, (fp_asset p).
+  assert (ex = false) as -> by (destruct ex; [discriminate | reflexivity]).
+  cbn [fm_set_farms fm_with fm_farms fm_positions fm_cfg fm_weights].
+  repeat split; auto; try lia.
+Qed.
+
+Lemma close_farm_spec w sender funds id s' msgs :
+  close_farm w sender funds id = Ok (s', msgs) ->
+  funds = [] /\ exists f, sfind f_id id (fm_farms (w_fm w)) = Some f /\
+    (f_owner f = sender \/ owner (fm_own (w_fm w)) = Some sender) /\
+    s' = fm_set_farms (w_fm w) (sremove f_id (f_id f) (fm_farms (w_fm w))) /\
+    let rem := ssub (amount_of (f_asset f)) (f_claimed f) in
+    msgs = (if 0 <? rem then [{| sm_msg := MBankSend (f_owner f) [(denom_of (f_asset f), rem)];
+                                 sm_id := CLOSE_FARMS_ERR_REPLY_CODE; sm_reply := RError |}] else []).
+Proof.
+  unfold close_farm. intros H.
+  apply bind_ok in H. destruct H as [[] [Hn H]]. unfold nonpayable in Hn. destruct funds; [|discriminate].
+  apply bind_ok in H. destruct H as [f [Hf H]]. apply of_option_ok in Hf.
+  apply bind_ok in H. destruct H as [[] [Ho H]]. apply ensure_ok in Ho.
+  split; [reflexivity|]. exists f. split; [exact Hf|]. split.
+  { apply orb_true_iff in Ho. destruct Ho as [Ho|Ho]; [left; apply String.eqb_eq in Ho; exact Ho|].
+    right. unfold is_owner in Ho. destruct (owner (fm_own (w_fm w))) as [x|]; [|discriminate].
+    apply String.eqb_eq in Ho. congruence. }
+  unfold close_farms in H. cbn [fold_left fst snd app] in H. inversion H; subst. split; reflexivity.
+Qed.
+
+(* what must be attached to create a farm, and what is sent on: the creation fee goes to the fee collector,
+   any overpayment of the fee is refunded, the reward amount stays as the farm's budget *)
+Lemma farm_creation_funds cfg sender funds asset fee_msgs :
+  let fee := fm_create_fee cfg in
+  0 <= amount_of fee -> 0 <= amount_of asset ->
+  assert_farm_asset funds fee asset = Ok tt ->
+  (if negb (amount_of fee =? 0) then process_farm_creation_fee cfg sender funds asset = Ok fee_msgs else fee_msgs = []) ->
+  (denom_of fee = denom_of asset /\
+   (exists d, funds = [(d, amount_of asset + amount_of fee)] /\ d = denom_of asset) /\
+   fee_msgs = (if 0 <? amount_of fee then [plain (MBankSend (fm_fee_collector cfg) [fee])] else []))
+  \/
+  (denom_of fee <> denom_of asset /\ List.length funds = 2%nat /\
+   (exists sent, find (fun c => String.eqb (denom_of c) (denom_of asset)) funds = Some sent /\ amount_of sent = amount_of asset) /\
+   (amount_of fee = 0 -> fee_msgs = []) /\
+   (0 < amount_of fee ->
+      exists paidc, find (fun c => String.eqb (denom_of c) (denom_of fee)) funds = Some paidc /\
+        amount_of fee <= amount_of paidc /\
+        fee_msgs = ((if amount_of paidc =? amount_of fee then []
+                     else [plain (MBankSend sender [(denom_of fee, amount_of paidc - amount_of fee)])]) ++
+                    [plain (MBankSend (fm_fee_collector cfg) [fee])])%list)).
+Proof.
+  intros fee Hfee0 Hasset0 Ha Hf. unfold assert_farm_asset in Ha.
+  apply bind_ok in Ha. destruct Ha as [sent [Hsent Ha]]. apply of_option_ok in Hsent.
+  destruct (String.eqb (denom_of fee) (denom_of asset)) eqn:Ed; cbn [negb] in Ha.
+  - apply String.eqb_eq in Ed. left. split; [exact Ed|].
+    apply bind_ok in Ha. destruct Ha as [t [Ht Ha]]. unfold cadd in Ht. apply chk_ok in Ht. destruct Ht as [-> Htr].
+    apply bind_ok in Ha. destruct Ha as [[] [Hamt Ha]]. apply ensure_ok in Hamt. apply ensure_ok in Ha.
+    destruct funds as [|c [|c2 r]]; try discriminate.
+    cbn [find] in Hsent. destruct (String.eqb (denom_of c) (denom_of asset)) eqn:Ec; [|discriminate].
+    inversion Hsent; subst sent. apply String.eqb_eq in Ec.
+    split.
+    { exists (denom_of c). split; [|exact Ec]. destruct c as [d a]. unfold denom_of, amount_of in *. cbn in *. f_equal. f_equal. lia. }
+    destruct (amount_of fee =? 0) eqn:E0; cbn [negb] in Hf.
+    + subst fee_msgs. replace (0 <? amount_of fee) with false by lia. reflexivity.
+    + unfold process_farm_creation_fee in Hf. fold fee in Hf. cbn [find] in Hf.
+      rewrite <- Ed in Ec. rewrite Ec, String.eqb_refl in Hf. cbn [of_option bind] in Hf.
+      replace (0 <? amount_of fee) with true in * by lia.
+      destruct (amount_of c =? amount_of fee) eqn:E1; [cbn [bind app] in Hf; inversion Hf; reflexivity|].
+      replace (amount_of c <? amount_of fee) with false in Hf by lia.
+      rewrite Ed, String.eqb_refl in Hf. unfold cadd in Hf.
+      rewrite chk_ok_intro in Hf by lia. cbn [bind] in Hf.
+      replace (amount_of asset + amount_of fee =? amount_of c) with true in Hf by lia. cbn [ensure bind app] in Hf.
+      inversion Hf; subst. reflexivity.
+  - apply String.eqb_neq in Ed. right. split; [exact Ed|].
+    apply bind_ok in Ha. destruct Ha as [[] [Hamt Ha]]. apply ensure_ok in Hamt. apply ensure_ok in Ha.
+    split; [apply Nat.eqb_eq; exact Ha|]. split; [exists sent; split; [exact Hsent | lia]|].
+    destruct (amount_of fee =? 0) eqn:E0; cbn [negb] in Hf.
+    + split; [intros _; exact Hf | intros C; lia].
+    + split; [intros C; lia|]. intros _. unfold process_farm_creation_fee in Hf. fold fee in Hf.
+      apply bind_ok in Hf. destruct Hf as [paidc [Hp Hf]]. apply of_option_ok in Hp.
+      apply bind_ok in Hf. destruct Hf as [refund [Hr Hf]].
+      exists paidc. split; [exact Hp|].
+      replace (0 <? amount_of fee) with true in Hf by lia.
+      destruct (amount_of paidc =? amount_of fee) eqn:E1.
+      * inversion Hr; subst refund. inversion Hf; subst. split; [lia | reflexivity].
+      * destruct (amount_of paidc <? amount_of fee) eqn:E2; [discriminate|].
+        assert (String.eqb (denom_of fee) (denom_of asset) = false) as Ed' by (apply String.eqb_neq; exact Ed).
+        rewrite Ed' in Hr. inversion Hr; subst refund. inversion Hf; subst. split; [lia|].
+        unfold ssub. replace (Z.max 0 (amount_of paidc - amount_of fee)) with (amount_of paidc - amount_of fee) by lia. reflexivity.
+Qed.
